@@ -196,6 +196,11 @@ def scan_assumptions(text):
         out[k] = len(re.findall(re.escape(k), text))
     return out
 
+BASELINE_META = {}
+try:
+    BASELINE_META = json.load(open(os.path.join(VERIF, "baseline_meta.json")))
+except Exception:
+    pass
 BASELINE_PARAMS = {}
 try:
     BASELINE_PARAMS = json.load(open(os.path.join(VERIF, "baseline_params.json")))
@@ -252,6 +257,7 @@ def main(argv):
         json.dump({"%s|%s::%s" % (f["file"], f["impl"], f["fn"]): f["body_hash"] for f in ctx.fn_index}, open(os.path.join(VERIF, "baseline_fns.json"), "w"), indent=0, sort_keys=True)
         json.dump({"%s|%s::%s" % (f["file"], f["impl"], f["fn"]): f.get("sig_norm", "") for f in ctx.fn_index}, open(os.path.join(VERIF, "baseline_sigs.json"), "w"), indent=0, sort_keys=True)
         json.dump({"%s|%s::%s" % (f["file"], f["impl"], f["fn"]): f.get("params") for f in ctx.fn_index if f.get("params")}, open(os.path.join(VERIF, "baseline_params.json"), "w"), indent=0, sort_keys=True)
+        json.dump({"%s|%s::%s" % (f["file"], f["impl"], f["fn"]): {"closure_calls": f.get("closure_calls", 0)} for f in ctx.fn_index}, open(os.path.join(VERIF, "baseline_meta.json"), "w"), indent=0, sort_keys=True)
         print("baseline written"); return 0
     baseline = {}
     bp = os.path.join(VERIF, "baseline_fns.json")
@@ -275,9 +281,14 @@ def main(argv):
         for lc in getattr(ctx, "lost_contracts", []):
             fpart, npart = lc["fn"].rsplit("::", 1)
             cands = [k for k, f in fns_by_key.items() if baseline and k not in baseline and k.rsplit("::", 1)[0] == fpart and not f["contract"] and f.get("sig_norm") == base_sigs.get(lc["fn"])]
+            if not cands:
+                # moved rather than renamed: same file, same name, same signature, another impl block / free function
+                bt = [t for _, t in (BASELINE_PARAMS.get(lc["fn"]) or [])]
+                cands = [k for k, f in fns_by_key.items() if baseline and k not in baseline and k.split("|")[0] == fpart.split("|")[0] and f["fn"] == npart and not f["contract"]
+                         and (f.get("sig_norm") == base_sigs.get(lc["fn"]) or (f.get("params") is not None and [t for _, t in f["params"]] == bt))]
             if len(cands) == 1:
                 f = fns_by_key[cands[0]]
-                if (f["file"], f["impl"], f["fn"]) not in renames: renames[(f["file"], f["impl"], f["fn"])] = npart; more = True
+                if (f["file"], f["impl"], f["fn"]) not in renames: renames[(f["file"], f["impl"], f["fn"])] = lc["fn"]; more = True
         if more: continue
         # brand-new private helpers have no contract: inline them at their call sites (R-inline) so that callers are checked on what they now do
         if baseline and not inline_tried:
@@ -410,6 +421,8 @@ def main(argv):
         # does a refutation rest on dropped proof hints or on a new function without contract?  then it needs a concrete witness
         def weak(f):
             fn = fns_by_key.get(f["fn"] or "", {})
+            if fn.get("closure_calls", 0) > BASELINE_META.get(f["fn"] or "", {}).get("closure_calls", 0):
+                return "the changed body passes closures to Option/Result/iterator combinators; the verifier does not see what an un-annotated closure returns"
             if f.get("closure_pre"): return "precondition of a closure passed to an Option/Result combinator (ghost-level only: no run-time check corresponds to it)"
             if pid not in f.get("props_direct", f["props"]): return "obligation of a callee that does not name this property (reached through the call cone only)"
             if pid not in f.get("props_own", f["props"]): return "the clause does not name this property; an obligation of this property rests on it in a caller's proof (proof-dependency table)"
